@@ -117,6 +117,18 @@ def gen_trace(recipe):
   t_big = np.asarray(est.transform(bigX))
   if len(pos) == len(P) and len(xpos) == nq:
     ev['reprs'].append({'name': 'large_batch', 'pd': obs.dyv(pd_big[pos]), 'transform': obs.dym(t_big[xpos])})
+  if recipe['qkind'] == 'integer':
+    # the get_metric() function on integer VECTORS of narrow / unsigned types (the points translated into the type's range:
+    # the learned distance is translation invariant)
+    metric = est.get_metric()
+    for dt in (np.uint8, np.uint16, np.int8):
+      info = np.iinfo(dt)
+      shift = np.floor(-Xq.min(axis=0)) + (3 if info.min == 0 else 0) if info.min == 0 else np.zeros(d)
+      Q = Xq + shift
+      if Q.min() >= info.min and Q.max() <= info.max:
+        Qi = Q.astype(dt)
+        ev['reprs'].append({'name': 'get_metric_on_%s_vectors' % np.dtype(dt).name,
+                            'pd': obs.dyv([metric(Qi[i], Qi[j]) for i, j in P]), 'transform': obs.dym(est.transform(Xq))})
   # single-pair batches
   single = np.concatenate([est.pair_distance(pairs[i:i + 1]) for i in range(len(P))])
   tsingle = np.vstack([est.transform(Xq[i:i + 1]) for i in range(nq)])
